@@ -18,7 +18,7 @@ NoTimerS == [armed |-> FALSE, start |-> 0]
 NoFinS == [set |-> FALSE, cond |-> "NO_ERROR", deliv |-> "DATA_COMPLETE", fstat |-> "FILE_STATUS_UNREPORTED"]
 NoTidS == [set |-> FALSE, src |-> 0, seq |-> 0]
 NoReqS == [mdOnly |-> FALSE, mode |-> "none", closure |-> "none", exists |-> FALSE, data |-> <<>>, srcName |-> "none",
-           srcBase |-> "none", dstName |-> "none", dIdW |-> 0, dId |-> 0, known |-> FALSE, msgs |-> <<>>]
+           srcBase |-> "none", dstName |-> "none", dIdW |-> 0, dId |-> 0, known |-> FALSE, msgs |-> <<>>, xopts |-> <<>>]
 \* PduConfig.empty() with the local entity id as source id (constructor); after reset() the source id is empty too
 EmptyHdrS(w, v) == [dir |-> "TR", mode |-> "ACK", crc |-> FALSE, lf |-> FALSE, sw |-> w, sv |-> v, dw |-> 0, dv |-> 0,
                     qw |-> 0, qv |-> 0]
@@ -57,7 +57,9 @@ HdrDir(h, d) == [h EXCEPT !.dir = d]
 MkMD(c, cfg) ==
   LET r == c.h.req
       hd == HdrDir(c.h.hdr, "TR")
-      opts == [i \in DOMAIN r.msgs |-> [t |-> 2, v |-> r.msgs[i]]] IN
+      \* options in the order of _prepare_metadata_pdu: filestore requests, fault handler overrides, flow label (r.xopts,
+      \* already in that order), then the messages to the user
+      opts == r.xopts \o [i \in DOMAIN r.msgs |-> [t |-> 2, v |-> r.msgs[i]]] IN
   IF r.mdOnly THEN [h |-> hd, t |-> "MD", closure |-> c.h.closure, chkType |-> "NULL", size |-> 0, srcName |-> "none",
                     srcBase |-> "none", dstName |-> "none", opts |-> opts, plen |-> LenMD0(hd, opts), rt |-> "ok"]
   ELSE [h |-> hd, t |-> "MD", closure |-> c.h.closure, chkType |-> cfg.chk, size |-> c.h.fileSize, srcName |-> r.srcName,
